@@ -1,10 +1,12 @@
 package main
 
 import (
+	"bytes"
 	"errors"
 	"fmt"
 	"hash/crc32"
 	"io"
+	"net"
 	"os"
 	"runtime"
 	"sort"
@@ -916,6 +918,7 @@ func runC10(o *out, thorough bool, r *rng, _ []string) map[string]interface{} {
 	runClientRandom(o, r, n, 200, true)
 	retransmitRaceScenarios(o, r, 40)
 	agentRefusesRetransmissionScenarios(o, r, 20)
+	moreClientScenarios(o, r)
 	return map[string]interface{}{"exhaustive_part": fmt.Sprintf("every history of <= %d operations over {Start(id1), Start(id2), response(id1), response(id2), garbage, tick past the deadline, fail next write of instance 0 / 1, Close} x 2 configurations: %d histories", depth, cnt)}
 }
 
@@ -925,6 +928,7 @@ func runC11(o *out, thorough bool, r *rng, _ []string) map[string]interface{} {
 		n = 3000
 	}
 	runClientRandom(o, r, n, 65535, false)
+	moreClientScenarios(o, r)
 	// schedule sweep: one transaction, clock stepped to just before / at / just after each deadline
 	for _, rto := range []int{7, 100, 1000} {
 		for _, maxA := range []int{7, 0} {
@@ -956,6 +960,7 @@ func runC12(o *out, thorough bool, r *rng, _ []string) map[string]interface{} {
 	}
 	retransmitRaceScenarios(o, r, 20)
 	agentRefusesRetransmissionScenarios(o, r, 20)
+	moreClientScenarios(o, r)
 	for i := 0; i < n; i++ {
 		// many transactions in flight, responses in random order with duplicates, unknown ids, garbage
 		k := r.pick([]int{1, 2, 5, 20, 60})
@@ -1078,7 +1083,7 @@ func closeErrorScenarios(o *out, r *rng, n int) {
 		conn := &scriptConn{rd: make(chan []byte), idle: make(chan struct{}, 1), closedCh: make(chan struct{}),
 			failInst: map[int]bool{}, clock: clock, h: h, unblock: make(chan struct{})}
 		if connFails {
-			conn.closeErr = errScriptedConnClose
+			conn.closeErr = []error{errScriptedConnClose, net.ErrClosed, io.ErrClosedPipe, fmt.Errorf("close tcp: %w", net.ErrClosed)}[(i/8)%4]
 		}
 		opts := []stun.ClientOption{stun.WithClock(clock), stun.WithCollector(&manualCollector{}), stun.WithRTO(time.Millisecond)}
 		if agentFails {
@@ -1096,6 +1101,9 @@ func closeErrorScenarios(o *out, r *rng, n int) {
 		var mu sync.Mutex
 		invoked := map[int]int{}
 		k := r.intn(4)
+		if i%16 == 5 {
+			k = r.rangeIn(101, 160) // more than a hundred transactions in flight at Close
+		}
 		for j := 0; j < k; j++ {
 			jj := j
 			m := &stun.Message{TransactionID: clientTID(500 + j), Raw: stunMsg(r, 500+j, 20)}
@@ -1200,6 +1208,7 @@ type raceConn struct {
 	held     chan struct{}
 	release  chan struct{}
 	idle     chan struct{}
+	mutated  bool // the slice given to a held Write changed while the Write was in progress
 }
 
 func (c *raceConn) Read(p []byte) (int, error) {
@@ -1229,8 +1238,14 @@ func (c *raceConn) Write(p []byte) (int, error) {
 	}
 	c.mu.Unlock()
 	if hold {
+		snap := append([]byte(nil), p...)
 		c.held <- struct{}{}
 		<-c.release
+		if !bytes.Equal(snap, p) {
+			c.mu.Lock()
+			c.mutated = true
+			c.mu.Unlock()
+		}
 		return 0, errScriptedWrite
 	}
 	return len(p), nil
@@ -1542,5 +1557,208 @@ func defaultCollectorScenarios(o *out, r *rng, n int) {
 		}
 		mu.Unlock()
 		o.count("default-collector-scenarios")
+	}
+}
+
+// moreClientScenarios (oracles in Go, no model): interleavings and API uses that the scripted histories cannot
+// express.
+func moreClientScenarios(o *out, r *rng) {
+	type env struct {
+		c       *stun.Client
+		conn    *raceConn
+		coll    *manualCollector
+		clock   *vclock
+		gate    *gateAgent
+		mu      sync.Mutex
+		invoked map[int][]int
+	}
+	mk := func(withGate bool, opts ...stun.ClientOption) *env {
+		e := &env{clock: &vclock{now: agentBase}, coll: &manualCollector{}, invoked: map[int][]int{}}
+		e.conn = &raceConn{rd: make(chan []byte), closedCh: make(chan struct{}), writes: map[[12]byte]int{},
+			held: make(chan struct{}, 1), release: make(chan struct{}), idle: make(chan struct{}, 1)}
+		all := []stun.ClientOption{stun.WithClock(e.clock), stun.WithCollector(e.coll), stun.WithRTO(100)}
+		if withGate {
+			e.gate = &gateAgent{Agent: stun.NewAgent(nil), inflight: make(chan struct{}, 1), release: make(chan struct{})}
+			all = append(all, stun.WithAgent(e.gate))
+		}
+		c, err := stun.NewClient(e.conn, append(all, opts...)...)
+		if err != nil {
+			return nil
+		}
+		e.c = c
+		select {
+		case <-e.conn.idle:
+		case <-time.After(2 * time.Second):
+		}
+		return e
+	}
+	idle := func(e *env) {
+		select {
+		case <-e.conn.idle:
+		case <-time.After(2 * time.Second):
+		}
+	}
+	startTID := func(e *env, key int, tid [12]byte, size int) error {
+		raw := stunMsg(r, 1, size)
+		copy(raw[8:20], tid[:])
+		m := &stun.Message{TransactionID: tid, Raw: raw}
+		return e.c.Start(m, func(ev stun.Event) {
+			e.mu.Lock()
+			e.invoked[key] = append(e.invoked[key], agentIDOf(ev.TransactionID))
+			e.mu.Unlock()
+		})
+	}
+	count := func(e *env, key int) int {
+		e.mu.Lock()
+		defer e.mu.Unlock()
+		return len(e.invoked[key])
+	}
+	// (1) three parties: the retransmission's Write is in progress; the reader has passed agent.Process for
+	// the response but its event has not reached the client yet; then the Write fails
+	for i := 0; i < 20; i++ {
+		e := mk(true)
+		if e == nil {
+			continue
+		}
+		id := 100 + i
+		e.conn.mu.Lock()
+		e.conn.holdTID, e.conn.holdOn = clientTID(id), true
+		e.conn.mu.Unlock()
+		_ = startTID(e, id, clientTID(id), 20)
+		now := agentBase.Add(101)
+		e.clock.set(now)
+		tickDone := make(chan struct{})
+		go func() { e.coll.f(now); close(tickDone) }()
+		select {
+		case <-e.conn.held:
+		case <-time.After(2 * time.Second):
+			_ = e.c.Close()
+			continue
+		}
+		e.gate.arm()
+		go func() { e.conn.rd <- response(r, id, 0) }()
+		select {
+		case <-e.gate.inflight:
+		case <-time.After(2 * time.Second):
+		}
+		close(e.conn.release) // the Write fails now
+		<-tickDone
+		close(e.gate.release) // the response event reaches the client
+		idle(e)
+		if n := count(e, id); n != 1 {
+			o.failFor("C10", "handler-not-invoked-exactly-once", fmt.Sprintf("x failed-retransmission-while-response-in-transit #%d invoked=%d", i, n))
+		}
+		_ = e.c.Close()
+		o.count("three-party-interleaving")
+	}
+	// (2) a large request whose retransmission is being written while the transaction completes and its pooled
+	// object is reused by another large request: the bytes handed to Write must not change under it
+	for i := 0; i < 20; i++ {
+		e := mk(false)
+		if e == nil {
+			continue
+		}
+		id := 100 + i
+		e.conn.mu.Lock()
+		e.conn.holdTID, e.conn.holdOn = clientTID(id), true
+		e.conn.mu.Unlock()
+		_ = startTID(e, id, clientTID(id), 3000)
+		now := agentBase.Add(101)
+		e.clock.set(now)
+		tickDone := make(chan struct{})
+		go func() { e.coll.f(now); close(tickDone) }()
+		select {
+		case <-e.conn.held:
+		case <-time.After(2 * time.Second):
+			_ = e.c.Close()
+			continue
+		}
+		e.conn.rd <- response(r, id, 0)
+		idle(e)
+		_ = startTID(e, id+1000, clientTID(id+1000), 3000) // reuses the pooled transaction object
+		close(e.conn.release)
+		<-tickDone
+		e.conn.mu.Lock()
+		mut := e.conn.mutated
+		e.conn.mu.Unlock()
+		if mut {
+			o.failFor("C11", "retransmission-buffer-changed-during-write", fmt.Sprintf("x #%d", i))
+			o.failFor("C10", "retransmission-buffer-changed-during-write", fmt.Sprintf("x #%d", i))
+		}
+		_ = e.c.Close()
+		o.count("write-buffer-stability")
+	}
+	// (3) a handler that retries with the same ID from inside the callback; (4) the all-zero transaction ID
+	for i := 0; i < 20; i++ {
+		e := mk(false)
+		if e == nil {
+			continue
+		}
+		id := 100 + i
+		tid := clientTID(id)
+		if i%2 == 1 {
+			tid = [12]byte{}
+		}
+		second := 0
+		raw := stunMsg(r, 1, 20)
+		copy(raw[8:20], tid[:])
+		first := 0
+		_ = e.c.Start(&stun.Message{TransactionID: tid, Raw: raw}, func(stun.Event) {
+			first++
+			_ = e.c.Start(&stun.Message{TransactionID: tid, Raw: append([]byte(nil), raw...)}, func(stun.Event) { e.mu.Lock(); second++; e.mu.Unlock() })
+		})
+		resp := append(header(0x0101, 0, tid[:]))
+		e.conn.rd <- resp
+		idle(e)
+		e.conn.rd <- append([]byte(nil), resp...)
+		idle(e)
+		e.mu.Lock()
+		s2 := second
+		e.mu.Unlock()
+		if first != 1 || s2 != 1 {
+			o.failFor("C12", "retry-with-same-id-from-handler", fmt.Sprintf("x #%d zero-id=%v first=%d second=%d", i, i%2 == 1, first, s2))
+			o.failFor("C10", "retry-with-same-id-from-handler", fmt.Sprintf("x #%d zero-id=%v first=%d second=%d", i, i%2 == 1, first, s2))
+		}
+		_ = e.c.Close()
+		o.count("retry-same-id / zero-id")
+	}
+	// (5) the library's own ticker collector with a custom clock: deadlines are judged by that clock
+	for i := 0; i < 6; i++ {
+		clock := &vclock{now: agentBase}
+		conn := &raceConn{rd: make(chan []byte), closedCh: make(chan struct{}), writes: map[[12]byte]int{},
+			held: make(chan struct{}, 1), release: make(chan struct{}), idle: make(chan struct{}, 1)}
+		c, err := stun.NewClient(conn, stun.WithClock(clock), stun.WithRTO(100*time.Millisecond), stun.WithTimeoutRate(5*time.Millisecond))
+		if err != nil {
+			continue
+		}
+		tid := clientTID(100 + i)
+		raw := stunMsg(r, 100+i, 20)
+		_ = c.Start(&stun.Message{TransactionID: tid, Raw: raw}, func(stun.Event) {})
+		writes := func() int {
+			conn.mu.Lock()
+			defer conn.mu.Unlock()
+			return conn.writes[tid]
+		}
+		time.Sleep(30 * time.Millisecond)
+		w0 := writes()
+		clock.set(agentBase.Add(98 * time.Millisecond)) // 2 ms before the first deadline
+		time.Sleep(30 * time.Millisecond)
+		w1 := writes()
+		clock.set(agentBase.Add(101 * time.Millisecond))
+		w2 := w1
+		for k := 0; k < 100 && w2 < 2; k++ {
+			time.Sleep(2 * time.Millisecond)
+			w2 = writes()
+		}
+		if w0 != 1 || w1 != 1 {
+			o.failFor("C11", "retransmitted-before-deadline", fmt.Sprintf("x default-collector custom-clock #%d writes before the deadline: %d, %d", i, w0, w1))
+			o.failFor("C10", "retransmitted-before-deadline", fmt.Sprintf("x default-collector custom-clock #%d writes before the deadline: %d, %d", i, w0, w1))
+		}
+		if w2 < 2 {
+			o.failFor("C11", "no-retransmission-after-deadline", fmt.Sprintf("x default-collector custom-clock #%d writes=%d", i, w2))
+			o.failFor("C10", "no-retransmission-after-deadline", fmt.Sprintf("x default-collector custom-clock #%d writes=%d", i, w2))
+		}
+		_ = c.Close()
+		o.count("default-collector-custom-clock")
 	}
 }
